@@ -47,6 +47,9 @@ Proof.
 Qed.
 End PowShift.
 
+Lemma pow_ne_1 a b : 1 < a -> 0 < b -> 1 <> (1 * a) ^ b.
+Proof. intros Ha Hb. rewrite Z.mul_1_l. pose proof (proj1 (Z.pow_gt_1 a b Ha) Hb). lia. Qed.
+
 (** F01 before the fix, 64-bit usize, no overflow checks: UBig 2^32 .pow(2^59) = 1 *)
 Theorem pow_shift_before_fix_refuted :
   exists e shift, 0 <= e < 2 ^ 64 /\ 0 <= shift < 2 ^ 64 /\
@@ -55,5 +58,5 @@ Proof.
   exists (2 ^ 59), 32. split; [lia|]. split; [lia|]. split.
   - unfold pow_shift_before_fix. replace (2 ^ 59 * 32) with (2 ^ 64) by reflexivity.
     rewrite Z.ltb_irrefl, Z.mod_same by lia. cbn [pow_shifted]. rewrite Z.pow_1_l by lia. reflexivity.
-  - rewrite Z.mul_1_l. assert (1 < (2 ^ 32) ^ (2 ^ 59)) by (apply Z.pow_gt_1; lia). lia.
+  - apply pow_ne_1; lia.
 Qed.
